@@ -186,6 +186,9 @@ def entry_point_layer(ctx):
     from beanquery import query as bq_query, shell
     rng = ctx.rng
     text, entries, errors, options = ledgers.gen_ledger(rng, ntxn=14)
+    # a quotation with more decimals than the currency usually shows: display precision and maximum precision differ
+    text += '\n2019-01-02 price ACME 10.0035 USD\n'
+    entries, errors, options = ledgers.load(text)
     conn = ledgers.connect(entries, errors, options)
     queries = ['SELECT account, sum(position) AS total GROUP BY account ORDER BY account',
                'SELECT date, account, position, price, cost(position) AS c ORDER BY date, account',
@@ -212,10 +215,14 @@ def entry_point_layer(ctx):
                                  payload={'ledger': text, 'query': q})
         # the shell with `.set numberify true` and csv output prints those cells
         out = io.StringIO()
-        sh = shell.BQLShell(path, out, interactive=False, runinit=False)
-        sh.onecmd('.set numberify true')
-        sh.onecmd('.set format csv')
-        sh.onecmd(q)
+        import contextlib
+        import warnings
+        with contextlib.redirect_stderr(io.StringIO()), warnings.catch_warnings():
+            warnings.simplefilter('ignore')
+            sh = shell.BQLShell(path, out, interactive=False, runinit=False)
+            sh.onecmd('.set numberify true')
+            sh.onecmd('.set format csv')
+            sh.onecmd(q)
         ref = io.StringIO()
         from beanquery import query_render
         query_render.render_csv(wdesc, wrows, options['dcontext'], ref)
@@ -224,6 +231,8 @@ def entry_point_layer(ctx):
         if out.getvalue() != ref.getvalue():
             ctx.record_violation('shell-numberify-differs', '%s: shell %r ... reference %r' % (q, out.getvalue()[:300], ref.getvalue()[:300]),
                                  payload={'ledger': text, 'query': q})
+    import shutil
+    shutil.rmtree(os.path.dirname(path), ignore_errors=True)
 
 
 def run(ctx):
